@@ -109,16 +109,24 @@ def _fresh(p):
 
 class S:
     """Symbolic integer scalar: kind 'py' (Python int) or a NumPy integer kind.  Hash is
-    constant so it can be a dict key with solver-decided equality (section 2.4)."""
+    constant so it can be a dict key with solver-decided equality (section 2.4).
+    Kind 'f' is a Python float / float64 holding the exact rational t / den (den a positive Python int):
+    true division by an item size keeps its fraction, int() truncates toward zero."""
 
-    def __init__(self, t, kind="py"):
+    def __init__(self, t, kind="py", den=1):
         self.t = z3.simplify(t)
         self.kind = kind
+        self.den = den
 
     def _b(self, o, f):
         if not isinstance(o, (S, int, SBool)):
             return NotImplemented
         k = promote(self.kind, o.kind if isinstance(o, S) else "py")
+        da, db = self.den, (o.den if isinstance(o, S) else 1)
+        if da != 1 or db != 1:
+            # rationals: common denominator (only + and - and comparisons are needed of quotients)
+            r = f(self.t * I(db), T(o) * I(da))
+            return S(r, "f", da * db)
         return S(wrap(f(self.t, T(o)), k), k)
 
     def __add__(self, o):
@@ -134,19 +142,44 @@ class S:
         return self._b(o, lambda a, b: b - a)
 
     def __mul__(self, o):
+        if self.den != 1 or (isinstance(o, S) and o.den != 1):
+            if not isinstance(o, (S, int)):
+                return NotImplemented
+            return S(self.t * T(o), "f", self.den * (o.den if isinstance(o, S) else 1))
         return self._b(o, lambda a, b: a * b)
 
     __rmul__ = __mul__
 
     def __truediv__(self, o):
-        # true division; only int() of the quotient is ever consumed (floor for x >= 0)
-        return S(self.t / T(o), "f")
+        # true division: exact rational with a concrete positive denominator (a symbolic divisor is decided by forking)
+        if isinstance(o, S) and o.den != 1:
+            raise HarnessError("bvio: division by a non-integer")
+        d = o if isinstance(o, int) and not isinstance(o, S) else conc(T(o))
+        if d == 0:
+            raise ZeroDivisionError("division by zero")
+        t = self.t if d > 0 else -self.t
+        return S(t, "f", self.den * abs(d))
 
     def __floordiv__(self, o):
+        if self.den != 1 or (isinstance(o, S) and o.den != 1):
+            raise HarnessError("bvio: floor division of a non-integer")
         return self._b(o, lambda a, b: a / b)
+
+    def trunc(self):
+        """int(): truncation toward zero (bvsdiv)."""
+        return self.t if self.den == 1 else self.t / I(self.den)
+
+    def __abs__(self):
+        return S(z3.If(self.t < I(0), -self.t, self.t), self.kind, self.den)
+
+    def __neg__(self):
+        return S(-self.t, self.kind, self.den)
 
     def _c(self, o, f):
         if isinstance(o, (S, int)) and not isinstance(o, bool) or isinstance(o, bool):
+            da, db = self.den, (o.den if isinstance(o, S) else 1)
+            if da != 1 or db != 1:
+                return mkbool(f(self.t * I(db), T(o) * I(da)))
             return mkbool(f(self.t, T(o)))
         return NotImplemented
 
@@ -174,15 +207,18 @@ class S:
         return 0
 
     def __index__(self):
+        if self.den != 1:
+            raise TypeError("'float' object cannot be interpreted as an integer")
         return conc(self.t)
 
-    __int__ = __index__
+    def __int__(self):
+        return conc(self.trunc())
 
     def __bool__(self):
         return bool(mkbool(self.t != I(0)))
 
     def item(self):
-        return S(self.t, "py")
+        return S(self.t, "py" if self.den == 1 else "f", self.den)
 
     @property
     def dtype(self):
@@ -192,6 +228,14 @@ class S:
         return "<S %s>" % self.kind
 
     __str__ = __repr__
+
+    def __format__(self, spec):
+        return "<symbolic>"
+
+    def __getattr__(self, name):
+        if name.startswith("__") and name.endswith("__"):
+            raise AttributeError(name)
+        raise HarnessError("bvio: scalar attribute %s is not modelled" % name)
 
 
 class DT:
@@ -287,7 +331,10 @@ class Arr:
             f.write(le_bytes(T(x), n))
 
     def __getitem__(self, k):
-        if isinstance(k, slice):
+        if isinstance(k, BoolArr):
+            # boolean mask: every mask element is decided on this path (fork), then a concrete gather
+            k = k.decide()
+        elif isinstance(k, slice):
             k = slice(_cidx(k.start), _cidx(k.stop), _cidx(k.step))
         elif isinstance(k, S):
             k = k.__index__()
@@ -297,8 +344,87 @@ class Arr:
     def copy(self):
         return Arr(self.a.copy(), self.dtype)
 
+    def sum(self, axis=None, dtype=None):
+        return NP.sum(self, dtype=dtype, axis=axis)
+
+    def __getattr__(self, name):
+        # an unmodelled attribute must never look like an exception of the library (C12 counts exceptions as rejections)
+        if name.startswith("__") and name.endswith("__"):
+            raise AttributeError(name)
+        raise HarnessError("bvio: ndarray.%s is not modelled" % name)
+
+    def _cmp(self, o, f):
+        if isinstance(o, Arr):
+            if o.a.shape != self.a.shape:
+                raise HarnessError("bvio: comparison of arrays of different shapes")
+            other = o.a
+        else:
+            other = None
+        out = rnp.empty(self.a.shape, dtype=object)
+        for pos in rnp.ndindex(*self.a.shape):
+            out[pos] = mkbool(f(T(self.a[pos]), T(other[pos] if other is not None else o)))
+        return BoolArr(out)
+
+    def __gt__(self, o):
+        return self._cmp(o, lambda a, b: a > b)
+
+    def __ge__(self, o):
+        return self._cmp(o, lambda a, b: a >= b)
+
+    def __lt__(self, o):
+        return self._cmp(o, lambda a, b: a < b)
+
+    def __le__(self, o):
+        return self._cmp(o, lambda a, b: a <= b)
+
+    def __eq__(self, o):
+        if not isinstance(o, (Arr, S, int)):
+            return NotImplemented
+        return self._cmp(o, lambda a, b: a == b)
+
+    def __ne__(self, o):
+        if not isinstance(o, (Arr, S, int)):
+            return NotImplemented
+        return self._cmp(o, lambda a, b: a != b)
+
+    __hash__ = None
+
     def max(self):
         return NP.max(self)
+
+
+class BoolArr:
+    """Array of (possibly symbolic) booleans produced by comparing an Arr."""
+
+    def __init__(self, a):
+        self.a = a
+        self.dtype = bool
+
+    shape = property(lambda s: s.a.shape)
+
+    def decide(self):
+        out = rnp.zeros(self.a.shape, dtype=bool)
+        for pos in rnp.ndindex(*self.a.shape):
+            out[pos] = bool(self.a[pos])
+        return out
+
+    def __invert__(self):
+        out = rnp.empty(self.a.shape, dtype=object)
+        for pos in rnp.ndindex(*self.a.shape):
+            out[pos] = mkbool(z3.Not(self.a[pos].t)) if isinstance(self.a[pos], SBool) else (not self.a[pos])
+        return BoolArr(out)
+
+    def any(self):
+        return any(bool(x) for x in self.a.flat)
+
+    def all(self):
+        return all(bool(x) for x in self.a.flat)
+
+    def sum(self):
+        return int(self.decide().sum())
+
+    def __len__(self):
+        return len(self.a)
 
 
 class Opaque:
@@ -329,6 +455,11 @@ def bv8(b):
 class SBytes:
     def __init__(self, bs):
         self.bs = bs
+
+    def __getattr__(self, name):
+        if name.startswith("__") and name.endswith("__"):
+            raise AttributeError(name)
+        raise HarnessError("bvio: %s.%s is not modelled" % (type(self).__name__, name))
 
     def __ne__(self, o):
         if isinstance(o, SBytes):
@@ -366,6 +497,11 @@ class SBytes:
 
 class File:
     """File object over a byte list.  ``size``: symbolic visible length (torn file) or None."""
+
+    def __getattr__(self, name):
+        if name.startswith("__") and name.endswith("__"):
+            raise AttributeError(name)
+        raise HarnessError("bvio: %s.%s is not modelled" % (type(self).__name__, name))
 
     def __init__(self, data=None, size=None):
         self.data = data if data is not None else []
@@ -479,7 +615,14 @@ def _fmt(fmt):
     return sizes[0], big
 
 
-class struct_:
+class _StrictNS(type):
+    def __getattr__(cls, name):
+        if name.startswith("__") and name.endswith("__"):
+            raise AttributeError(name)
+        raise HarnessError("bvio: %s.%s is not modelled" % (cls.__name__, name))
+
+
+class struct_(metaclass=_StrictNS):
     error = rstruct.error
 
     @staticmethod
@@ -551,7 +694,7 @@ def sx_from_bytes(b, byteorder="big", *, signed=False):
     return S(from_le(bs if byteorder == "little" else bs[::-1]))
 
 
-class mmap_:
+class mmap_(metaclass=_StrictNS):
     PAGESIZE = 4096
     ALLOCATIONGRANULARITY = 4096
     MAP_SHARED = 1
@@ -592,7 +735,7 @@ def _mk_type(k):
     return type(NPNAME[k], (), {"k": k})
 
 
-class NP:
+class NP(metaclass=_StrictNS):
     uint8 = _mk_type("u1")
     uint16 = _mk_type("u2")
     uint32 = _mk_type("u4")
@@ -758,8 +901,22 @@ def sx_type(x):
 
 def sx_int(x, *a):
     if isinstance(x, S):
-        return S(x.t, "py")
+        return S(x.trunc(), "py")
     return int(x, *a)
+
+
+def sx_fmt(fmt, args):
+    """'...' % args without evaluating symbolic values (messages are never compared)."""
+    def plain(v):
+        return 0 if isinstance(v, S) else v
+    try:
+        if isinstance(args, tuple):
+            return fmt % tuple(plain(v) for v in args)
+        if isinstance(args, dict):
+            return fmt % {k: plain(v) for k, v in args.items()}
+        return fmt % (plain(args),)
+    except (TypeError, ValueError):
+        return fmt
 
 
 def sx_len(x):
@@ -790,6 +947,12 @@ class _RW(ast.NodeTransformer):
             n.func = ast.Name("_sx_from_bytes", ast.Load())
         return n
 
+    def visit_BinOp(self, n):
+        self.generic_visit(n)
+        if isinstance(n.op, ast.Mod) and isinstance(n.left, ast.Constant) and isinstance(n.left.value, str):
+            return ast.copy_location(ast.Call(ast.Name("_sx_fmt", ast.Load()), [n.left, n.right], []), n)
+        return n
+
 
 def load_indxio():
     """Compile the working tree's indxio.py (and fit_dtype from iindexes.py) over the stubs."""
@@ -808,7 +971,7 @@ def load_indxio():
     pkg.__path__ = []
     sys.modules["catii"] = pkg
     sys.modules["catii.iindexes"] = ii
-    m.__dict__.update(_sx_len=sx_len, _sx_type=sx_type, _sx_int=sx_int, _sx_isinstance=sx_isinstance, _sx_from_bytes=sx_from_bytes)
+    m.__dict__.update(_sx_len=sx_len, _sx_type=sx_type, _sx_int=sx_int, _sx_isinstance=sx_isinstance, _sx_from_bytes=sx_from_bytes, _sx_fmt=sx_fmt)
     sys.modules["numpy"] = NP
     sys.modules["struct"] = struct_
     sys.modules["mmap"] = mmap_
